@@ -24,7 +24,13 @@ def families(tier, seed):
 
 
 def main():
-    chk = Check("C08", "exploration")
+    chk = Check("C08", "other")
+    # deductive core: "with a fixed-step solver sample k is the value used during integration step k" — every fixed-step loop
+    # (NumPy, Torch, JAX; ODE and delayed) hands the vector field the integer step counter i + t0, in BOTH Heun stages
+    from checks.c03 import solver_fallback
+    chk.run_contracts("contracts.c03", names=[f"BaseBackend.{m}[{v}]" for m in ("_solve_euler", "_solve_heun") for v in ("ode", "dde")],
+                      fallback={"*": solver_fallback(chk)})
+    chk.run_contracts("contracts.c02", fallback={"*": lambda: []})
     driver.run_family(
         chk, "run-with-inputs-vs-spec", families(chk.tier, chk.seed), cases.case_fn, site="C08/inputs",
         rule="leaky integrators driven by seeded random (non-constant) input arrays: (N,), (N,1), 1-D broadcast to three nodes via "
@@ -34,10 +40,13 @@ def main():
              "tight reference); vectorize off and on; distinct = (scenario, solver, vectorize)",
         sample_of=lambda c: {k: v for k, v in c.items() if k not in ("features", "inputs")})
     rc = chk.finish(
-        explanation="Bounded: trajectories of integrators under extrinsic inputs against the spec (cumulative sums for Euler, "
-                    "interpolated inputs for adaptive solvers). The deductive part of C08 (the fixed-step loops pass the integer "
-                    "step counter, both Heun stages the same one) is discharged in the C03 check.",
-        assumptions=["spec_fixed_step / spec_rhs with additive extrinsic terms (harness)", "scipy reference DOP853 rtol 1e-11"])
+        explanation="Deductive core: the fixed-step loops of the NumPy, Torch and JAX backends call the vector field with the integer step "
+                    "counter i + t0 at step i (both Heun stages the same one), for every step count and cadence — the generated "
+                    "`u_input[t]` then reads sample k during step k. Bounded: trajectories of integrators under extrinsic inputs against "
+                    "the spec (cumulative sums for Euler, interpolated inputs for adaptive solvers); the input wiring (_add_input, "
+                    "create_input_node) is covered only by these bounded cases.",
+        assumptions=["as for C03/C02 (floats as reals, value semantics of the vector field, documented lax.scan semantics)",
+                     "spec_fixed_step / spec_rhs with additive extrinsic terms (harness)", "scipy reference DOP853 rtol 1e-11"])
     sys.exit(rc)
 
 
